@@ -25,7 +25,7 @@ func (rc) Close() error { return nil }
 func implCR(f []string, o *oracleSink) string {
 	mkSrc := func(d, chunk, fa, ewd string) *scriptSrc {
 		k, wr := srcFail(fa)
-		return &scriptSrc{data: loadBlob(d), chunk: atoi(chunk), failAt: k, wrapEOF: wr == 1, wrapPlain: wr == 2, eofWithData: ewd == "1"}
+		return &scriptSrc{data: loadBlob(d), chunk: atoi(chunk), failAt: k, wrapEOF: wr == 1, wrapPlain: wr == 2, eofWithData: ewd == "1" || ewd == "3", zeroReads: k < 0 && (ewd == "2" || ewd == "3")}
 	}
 	src := mkSrc(f[2], f[3], f[4], f[5])
 	zr := lz4.NewCompressingReader(rc{src})
@@ -202,7 +202,7 @@ func genCR(w *bufio.Writer, thorough bool, r *Rng) {
 		if sz > 70000 {
 			sizes = append(sizes, fmt.Sprint(r.Pick([]int{4096, 65536, 100000})))
 		}
-		fmt.Fprintf(w, "CR %s %s %d %s %d %s\n", opts, dataTok(r, sz, lvl), r.Pick([]int{0, 0, 1, 5000}), failTok, r.Intn(2), strings.Join(sizes, " "))
+		fmt.Fprintf(w, "CR %s %s %d %s %d %s\n", opts, dataTok(r, sz, lvl), r.Pick([]int{0, 0, 1, 5000}), failTok, r.Intn(4), strings.Join(sizes, " "))
 	}
 	// reuse: Reset (and Apply) in the middle of a stream, after io.EOF, and after a source failure
 	bss := []int{65536, 262144, 1048576, 4194304}
